@@ -8,6 +8,8 @@ import (
 	"bufio"
 	"bytes"
 	"context"
+	crand "crypto/rand"
+	"encoding/binary"
 	"encoding/hex"
 	"fmt"
 	"io"
@@ -259,6 +261,41 @@ type world struct {
 	waiters map[string]chan wmsg    // token handlers of pending Do calls of A
 	cancels []context.CancelFunc
 	connCtx context.Context // the connections' context: cancelled when the case ends
+	// observations (`observe <side> <tok>`): what the layer's getSentRequestFromOutside serves; B's default resource
+	// (`resource …`): how B's application answers a request whose token has no registered answer; the token source
+	observed map[string]bool
+	resource *wmsg
+	tokens   *tokenSource
+}
+
+// tokenSource replaces crypto/rand.Reader while a case runs: message.GetToken (the only reader of randomness in the
+// block-wise layer: the token of the follow-up GETs of a block-wise notification) gets the tokens the script queued
+// (`fresh <tok>`) and then freshBase, freshBase+1, … — the same sequence the model driver uses.
+type tokenSource struct {
+	mu    sync.Mutex
+	queue [][]byte
+	drawn uint64
+}
+
+const freshBase = uint64(0xF0F0000000000000)
+
+func (t *tokenSource) Read(p []byte) (int, error) {
+	t.mu.Lock()
+	defer t.mu.Unlock()
+	if len(p) != 8 {
+		for i := range p {
+			p[i] = 0xA5
+		}
+		return len(p), nil
+	}
+	if len(t.queue) > 0 {
+		copy(p, t.queue[0])
+		t.queue = t.queue[1:]
+		return 8, nil
+	}
+	binary.BigEndian.PutUint64(p, freshBase+t.drawn)
+	t.drawn++
+	return 8, nil
 }
 
 func (w *world) log(s string) { w.mu.Lock(); w.events = append(w.events, s); w.mu.Unlock() }
@@ -315,6 +352,9 @@ func (w *world) next(e *endpoint) func(rw *responsewriter.ResponseWriter[*endpoi
 		if s.code >= int(codes.GET) && s.code <= int(codes.DELETE) {
 			w.mu.Lock()
 			reg, ok := w.regs["B/"+s.tok]
+			if !ok && w.resource != nil {
+				reg, ok = *w.resource, true
+			}
 			w.mu.Unlock()
 			if ok {
 				reg.tok = s.tok
@@ -362,7 +402,22 @@ func (w *world) recv(e *endpoint, m wmsg) {
 
 func newEndpoint(w *world, name string, szx int, max uint32, exp time.Duration) *endpoint {
 	e := &endpoint{name: name, p: pool.New(64, 2048), szx: blockwise.SZX(szx), max: max}
-	e.bw = blockwise.New(e, exp, func(error) { w.log("err " + name) }, nil)
+	e.bw = blockwise.New(e, exp, func(error) { w.log("err " + name) }, func(token message.Token) (*pool.Message, bool) {
+		// the connection's observation table: a copy of the registered request (code, token, options), as
+		// net/observation Handler.GetObservationRequest makes it
+		t := tokNum(token)
+		w.mu.Lock()
+		reg, ok := w.regs[name+"/"+t]
+		ok = ok && w.observed[name+"/"+t]
+		w.mu.Unlock()
+		if !ok {
+			return nil, false
+		}
+		reg.body = nil
+		m := e.p.AcquireMessage(w.connCtx)
+		reg.fill(m)
+		return m, true
+	})
 	return e
 }
 
@@ -437,6 +492,34 @@ func (w *world) apply(f []string) (done bool) {
 		m.tok = f[2]
 		w.mu.Lock()
 		w.regs[f[1]+"/"+f[2]] = m
+		w.mu.Unlock()
+		w.log("ok")
+	case "observe":
+		w.mu.Lock()
+		_, ok := w.regs[f[1]+"/"+f[2]]
+		if ok {
+			w.observed[f[1]+"/"+f[2]] = true
+		}
+		w.mu.Unlock()
+		if ok {
+			w.log("ok")
+		} else {
+			w.log("bad-op")
+		}
+	case "fresh":
+		t := tokBytes(f[1])
+		if len(t) != 8 {
+			w.log("bad-op")
+			return
+		}
+		w.tokens.mu.Lock()
+		w.tokens.queue = append(w.tokens.queue, t)
+		w.tokens.mu.Unlock()
+		w.log("ok")
+	case "resource":
+		m := wmsg{code: atoi(f[1]), etag: parseEtag(f[4]), other: parseOther(f[5]), body: genBody(atoi(f[3]), 0, atoi(f[2]))}
+		w.mu.Lock()
+		w.resource = &m
 		w.mu.Unlock()
 		w.log("ok")
 	case "do":
@@ -555,7 +638,7 @@ func (w *world) apply(f []string) (done bool) {
 	return false
 }
 
-var arity = map[string]int{"reg": 8, "do": 3, "write": 3, "inject": 13, "sleep": 2, "tick": 2, "settle": 1, "end": 1}
+var arity = map[string]int{"observe": 3, "fresh": 2, "resource": 6, "reg": 8, "do": 3, "write": 3, "inject": 13, "sleep": 2, "tick": 2, "settle": 1, "end": 1}
 
 func wellFormed(f []string) bool {
 	if len(f) == 0 {
@@ -571,7 +654,10 @@ func wellFormed(f []string) bool {
 func runCase(t *testing.T, cfg []string, ops [][]string) []string {
 	out := make([]string, len(ops))
 	synctest.Test(t, func(t *testing.T) {
-		w := &world{regs: map[string]wmsg{}, waiters: map[string]chan wmsg{}}
+		w := &world{regs: map[string]wmsg{}, waiters: map[string]chan wmsg{}, observed: map[string]bool{}, tokens: &tokenSource{}}
+		savedReader := crand.Reader
+		crand.Reader = w.tokens
+		defer func() { crand.Reader = savedReader }()
 		var connCancel context.CancelFunc
 		w.connCtx, connCancel = context.WithCancel(context.Background())
 		w.cancels = append(w.cancels, connCancel)
